@@ -150,7 +150,7 @@ def spec_numeric(n, too_big):
     return {repr(chr(n))}
 
 
-def r14_4(ctx, which):
+def r14_4(ctx, which, rule="R14.4"):
     """value function of finish_numeric over an exact integer partition"""
     crate = "html5ever" if which == "html" else "xml5ever"
     items = ctx.ast.walkable(crate)
@@ -219,8 +219,8 @@ def r14_4(ctx, which):
                 key = "numeric/%s/%s" % (which, "overflow" if tb else _interval_name(n))
                 if key not in badkeys:
                     badkeys.add(key)
-                    ctx.ob("R14.4", key, False, "n=0x%X too_big=%s yields %s, WHATWG prescribes %s" % (n, tb, got, "/".join(sorted(exp))), "%s char_ref finish_numeric" % crate)
-    ctx.ob("R14.4", "numeric-value-function/" + which, not badkeys, "%d (value, overflow) sample points over %d integer classes agree with the WHATWG table" % (checked, len(samples)))
+                    ctx.ob(rule, key, False, "n=0x%X too_big=%s yields %s, WHATWG prescribes %s" % (n, tb, got, "/".join(sorted(exp))), "%s char_ref finish_numeric" % crate)
+    ctx.ob(rule, "numeric-value-function/" + which, not badkeys, "%d (value, overflow) sample points over %d integer classes agree with the WHATWG table" % (checked, len(samples)))
     _st["n"] += checked
     return checked
 
